@@ -279,3 +279,82 @@ def check_C04(c):
     c.assumptions += ["bounded waiting (20 s per session) stands for 'hangs'; the parked-goroutine stack is stored in the replay file",
                       "the peer behaves like a server process: when its input ends it closes its output"]
     return c.finish()
+
+
+def _file_violations(c, found):
+    for f in found:
+        head = f["trace"][0] if f["trace"] else {}
+        st = f["state"]
+        msg = (st.get("c01", '""') + st.get("c12", '""') + st.get("c13", '""')).replace('""', "").strip('"')
+        api = msg.rsplit(": ", 1)[-1] if ": " in msg else "?"
+        key = "%s,api=%s,backend=%s" % (f["invariant"], api, head.get("backend"))
+        c.violation(key, "%s: %s (options %s)" % (f["invariant"], msg, {k: head.get(k) for k in ("p", "conc", "creads", "cwrites", "fstat", "size")}),
+                    {"module": "TraceFile", "invariant": f["invariant"], "tlc_state": st, "scenario": head, "trace": f["trace"][:200]})
+
+
+def _file_models(c, which):
+    c.model("FileXfer", "FileXfer.quick.cfg", note="exhaustive: slicer/map workers/reducer and WriteTo chain, size<=4, len<=5, P=2, conc<=2, <=2 bad bytes, every reply order")
+    if "C13" in which:
+        c.model("FileXfer", "FileXfer.abl_ReduceLowest.cfg", must="fail", expect="Inv_C13_Result", note="reducer keeps the first error to arrive instead of the lowest offset")
+    if "C12" in which:
+        c.model("FileXfer", "FileXfer.abl_OffsetOnData.cfg", must="fail", expect="Inv_C12_WriteToOffset", note="WriteTo moves the offset for data-less packets (behaviour before fix c52b73a)")
+        c.model("FileSeq", "FileSeq.quick.cfg", note="offset/closed state machine over boundary arguments, <=4 calls")
+    if c.tier == "thorough":
+        c.model("FileXfer", "FileXfer.live.cfg", timeout=3000, note="liveness <>returns")
+        c.model("FileXfer", "FileXfer.thorough.cfg", timeout=6000, note="size<=7, len<=8, P in {2,3}, conc<=3")
+
+
+def _fileseq_scen(c, n):
+    def conv(s, i):
+        size = s[0]["off"]
+        calls = []
+        for x in s[1:]:
+            src = ["len", "size", "stat", "limited", "opaque", "conc"][i % 6]
+            calls.append({"api": x["api"], "off": x["off"], "len": x["len"], "whence": x["whence"] if x["api"] == "Seek" else (i % 4), "src": src})
+        return {"size": size, "calls": calls, "src": "tlc"}
+    return export_scen(c, "FileSeq", "FileSeqScen.cfg", n, conv, "scen_fileseq.json", depth=12)
+
+
+def check_C01(c):
+    _file_models(c, ["C01"])
+    scen = _fileseq_scen(c, 60 if c.tier == "quick" else 2000)
+    rc, out, path = c.run("TestVerif_FileExact", env={"VERIF_SCEN": scen}, timeout=6000)
+    count_traces(c, path, ["backend", "p", "conc", "creads", "cwrites", "fstat", "size", "calls"])
+    c.cov["rule"] = ("a case is one (backend, client options, file size, call sequence) on the real File: backends = os Server / RequestServer, each with and without allocator, "
+                     "and the scripted peer answering in permuted batches; sizes/lengths/offsets are boundary values around multiples of the packet size; every payload is logged "
+                     "and compared byte for byte by TLC")
+    found = c.validate("TraceFile", "TraceFile.C01.cfg", path)
+    _file_violations(c, found)
+    c.assumptions += ["packet sizes 1..64 so that whole payloads are logged verbatim; absolute sizes of megabytes are not covered here",
+                      "client packet size never exceeds the server's maximum payload (as the property requires)"]
+    return c.finish()
+
+
+def check_C12(c):
+    _file_models(c, ["C12"])
+    scen = _fileseq_scen(c, 80 if c.tier == "quick" else 3000)
+    rc, out, path = c.run("TestVerif_FileExact", env={"VERIF_SCEN": scen}, timeout=6000)
+    count_traces(c, path, ["backend", "p", "conc", "creads", "cwrites", "fstat", "size", "calls"])
+    found = c.validate("TraceFile", "TraceFile.C12.cfg", path)
+    _file_violations(c, found)
+    rc, out, path2 = c.run("TestVerif_CloseRace", timeout=3000)
+    count_traces(c, path2, ["G", "round"])
+    found = c.validate("TraceFile", "TraceFile.C12.cfg", path2)
+    _file_violations(c, found)
+    c.cov["rule"] = ("(a) sequences of File method calls (TLC-exported from FileSeq.tla and seeded) with the offset read back after every call; "
+                     "(b) rounds of Close racing 2-5 goroutines that call ReadAt/WriteAt/Stat/Truncate/Chmod, with the peer's request log checked for one CLOSE and nothing after it")
+    c.assumptions += ["the close race is sampled (Go scheduler); the wire log is taken by the peer's single reader goroutine"]
+    return c.finish()
+
+
+def check_C13(c):
+    _file_models(c, ["C13"])
+    rc, out, path = c.run("TestVerif_FilePartial", timeout=6000)
+    count_traces(c, path, ["backend", "p", "conc", "creads", "cwrites", "fstat", "size", "calls", "t"])
+    c.cov["rule"] = ("a case is one (client options, file size, set of <=3 bad bytes, call sequence) against the scripted peer, which fails every request covering a bad byte "
+                     "and answers each batch of outstanding requests in a seeded permutation; map workers are additionally delayed at the cl.map hook")
+    found = c.validate("TraceFile", "TraceFile.C13.cfg", path)
+    _file_violations(c, found)
+    c.assumptions += ["the failing status carries the lowest bad byte of the failing request's range ('E@p'), code SSH_FX_FAILURE",
+                      "after a cancelled transfer the harness lets the peer answer abandoned requests before it snapshots the served file"]
+    return c.finish()
